@@ -540,9 +540,7 @@ def run(ctx):
 
     core.run_given(ctx, configuration(), body, ctx.n(400, 2000), label="c18-configurations")
     if ctx.evaluations >= 300:
-        low = [c for c in REQUIRED_CLASSES if ctx.classes.get(c, 0) < 0.01 * ctx.evaluations]
-        if low:
-            raise core.HarnessError("generator unhealthy: classes below 1%%: %s" % low)
+        core.health(ctx, REQUIRED_CLASSES)
         ctx.notes["generator-health"] = "all %d required classes >= 1%% of evaluations" % len(REQUIRED_CLASSES)
 
 
